@@ -564,3 +564,81 @@ R("blockrewards-sorted-helper-loop", ["C01"],
 		kvKeys = append(kvKeys, k)
 	}
 	sort.Strings(kvKeys)"""))
+
+# ------------------------------------------------------------------ C07 / C06.memory
+M("beginblock-fix-reverted-govern", "C07", "C07.aim",
+  (CTRL, """		feeOpt, err := app.Context.govern.WithState(app.Context.deliver).GetFeeOption()""",
+   """		feeOpt, err := app.Context.govern.GetFeeOption()"""))
+M("beginblock-fix-reverted-proposals", "C07", "C07.aim",
+  (CTRL, """		AddInternalTX(app.Context.proposalMaster.WithState(app.Context.deliver), app""", """		AddInternalTX(app.Context.proposalMaster, app"""))
+M("managevotes-unaimed", "C07", "C07.aim",
+  (CTRL, """	err = ctx.evidenceStore.WithState(ctx.deliver).SetVoteBlock(req.Header.GetHeight(), req.LastCommitInfo.Votes)""",
+   """	err = ctx.evidenceStore.SetVoteBlock(req.Header.GetHeight(), req.LastCommitInfo.Votes)"""))
+M("endblock-feepool-unaimed", "C07", "C07.aim",
+  (CTRL, """		fee, err := app.Context.feePool.WithState(app.Context.deliver).Get([]byte(fees.POOL_KEY))""",
+   """		fee, err := app.Context.feePool.Get([]byte(fees.POOL_KEY))"""))
+M("rewards-unaimed", "C07", "C07.aim",
+  (CTRL, """	rewardMaster := appCtx.rewardMaster.WithState(appCtx.deliver)
+	options := rewardMaster.Reward.GetOptions()""", """	rewardMaster := appCtx.rewardMaster
+	options := rewardMaster.Reward.GetOptions()"""))
+M("rewards-aimed-at-check", "C07", "C07.aim",
+  (CTRL, """	delegStore := ctx.netwkDelegators.Deleg.WithState(ctx.deliver)""", """	delegStore := ctx.netwkDelegators.Deleg.WithState(ctx.check)"""))
+M("commit-keeps-check-state", "C07", "C07.recreate",
+  (CTRL, """		app.Context.check = storage.NewState(app.Context.chainstate).WithGas(gc)
+		result := ResponseCommit{""", """		if app.Context.check == nil {
+			app.Context.check = storage.NewState(app.Context.chainstate).WithGas(gc)
+		}
+		result := ResponseCommit{"""))
+M("deliver-uses-check-state", "C07", "C07.deliverstate",
+  (CTRL, """		txCtx := app.Context.Action(&app.header, app.Context.deliver)
+
+		handler := txCtx.Router.Handler(tx.Type)""", """		txCtx := app.Context.Action(&app.header, app.Context.check)
+
+		handler := txCtx.Router.Handler(tx.Type)"""))
+M("olvm-check-runs-vm", "C07", "C07.nowrite",
+  ("action/olvm/handler.go", """	ctx.Logger.Detail("Processing OLVM Transaction for CheckTx", rawTx)""",
+   """	ctx.Logger.Detail("Processing OLVM Transaction for CheckTx", rawTx)
+	if len(rawTx.Data) > txSlotSize {
+		return runOLVM(ctx, rawTx)
+	}"""))
+M("selector-stale-alias", ["C07"], "C07.selector",
+  ("action/eth/ext_lock.go", """	if ctx.ETHTrackers.WithPrefixType(ethereum.PrefixOngoing).Exists(name) || ctx.ETHTrackers.WithPrefixType(ethereum.PrefixPassed).Exists(name) {""",
+   """	passed := ctx.ETHTrackers.WithPrefixType(ethereum.PrefixPassed)
+	ongoing := ctx.ETHTrackers.WithPrefixType(ethereum.PrefixOngoing)
+	if ongoing.Exists(name) || passed.Exists(name) {"""))
+M("apply-skips-finalise-on-error", "C06", "C06.memory.evm-epilogue",
+  ("vm/evm.go", """	executionResult, err := ApplyMessage(etx.NewEVM(), etx, etx.gaspool)
+""", """	executionResult, err := ApplyMessage(etx.NewEVM(), etx, etx.gaspool)
+	if err != nil {
+		return nil, err
+	}
+"""))
+M("finalise-keeps-object-cache", "C06", "C06.memory.evm-epilogue",
+  ("vm/statedb.go", """		s.stateObjects = make([]stateEntry, 0)
+		s.addressToObjectIndex = make(map[ethcmn.Address]int)
+		s.stateObjectsDirty = make(map[ethcmn.Address]struct{})
+		// invalidate journal because reverting across transactions is not allowed""", """		s.stateObjectsDirty = make(map[ethcmn.Address]struct{})
+		// invalidate journal because reverting across transactions is not allowed"""))
+M("govupdate-live-fee-pointer", ["C06", "C07"], ["C06.memory", "C07.shared"],
+  ("action/govUpdate.go", """func feeOptionminFeeDecimal(value interface{}, ctx *Context, validationOnly FunctionBehaviour) (bool, error) {
+	feeOptions, err := ctx.GovernanceStore.GetFeeOption()
+	if err != nil {
+		return false, err
+	}""", """func feeOptionminFeeDecimal(value interface{}, ctx *Context, validationOnly FunctionBehaviour) (bool, error) {
+	feeOptions := ctx.FeePool.GetOpt()
+	if feeOptions == nil {
+		return false, errors.New("fee options are not set")
+	}"""))
+R("rewards-aim-hoisted", ["C07"],
+  (CTRL, """	delegationPoolCoin, err := appCtx.balances.WithState(appCtx.deliver).GetBalanceForCurr(poolList["DelegationPool"], &curr)""",
+   """	bal := appCtx.balances.WithState(appCtx.deliver)
+	delegationPoolCoin, err := bal.GetBalanceForCurr(poolList["DelegationPool"], &curr)"""))
+R("endblock-validators-aimed-once", ["C07"],
+  (CTRL, """		events := app.Context.validators.WithState(app.Context.deliver).GetEvents()
+		app.logger.Detailf("Sending events with nodes to tendermint: %+v\\n", events)
+
+		app.Context.validators.WithState(app.Context.deliver).ClearEvents()""", """		vals := app.Context.validators.WithState(app.Context.deliver)
+		events := vals.GetEvents()
+		app.logger.Detailf("Sending events with nodes to tendermint: %+v\\n", events)
+
+		vals.ClearEvents()"""))
